@@ -33,6 +33,18 @@ CHECKS = {
  "C09": ("parse at a SYMBOLIC start offset p vs parse at 0; input kinds and call forms as differential obligations, decided by z3",
          "the stream's start offset is a solver variable p (aligned), bytes before p are unconstrained symbols: value, recorded sizes and final position p+size are proved equal to the parse at offset 0 for every p; independence from trailing bytes; consecutive parses; bytes/bytearray/memoryview/stream x T(x)/read/reads/cs.read differential",
          "5"),
+ "C11": ("union reads and assignment histories vs a tracked reference buffer, assigned member = engine decision, values symbolic, decided by z3",
+         "the real Union.__setattr__/_rebuild/_update/_proxify/UnionProxy code runs on symbolic union bytes and symbolic assigned values; which member or nested field is assigned is an engine decision variable; after every step all members and the dump are compared by z3 with a reference buffer (old bytes + reference encoding of the member)",
+         "5"),
+ "C12": ("enum/flag value preservation, equality/hash congruence and member numbering with SYMBOLIC explicit values, decided by z3",
+         "every underlying value (symbolic, whole range) through the real enum machinery as scalar/array/struct member; ==/!=/hash over pairs of symbolic values and two classes (hash as an uninterpreted function); the real TokenParser._enum executed with symbolic constants so auto-numbering (previous+1 / next power of two) is proved for all values",
+         "5"),
+ "C16": ("pointer width/value/dereference/arithmetic with a SYMBOLIC address over a symbolic stream, decided by z3",
+         "the pointer value read from symbolic bytes is a solver term; dereference is explored for every in-range address (paths) and one beyond-end class, compared with an independent parse of the target at that offset; position restoration, caching (read log), null handling, arithmetic and write range obligations discharged by z3",
+         "5"),
+ "C17": ("generated __eq__/__hash__/__bool__/__init__ on instances whose fields are all symbolic; single-field assignment locality on dumps, decided by z3",
+         "the patched code templates run natively on symbolic field values of two instances (and of classes sharing the template); equality <=> all fields equal, hash congruence (uninterpreted function), truthiness, constructor forms and byte-locality of a symbolic single-field assignment (field = engine decision) are discharged by z3",
+         "5"),
 }
 
 LEVEL_NOTE = ("trusted: CPython 3.12 semantics of the natively executed parts; the call-site rewrite (validated: repository suite passes under it); "
